@@ -376,3 +376,54 @@ def _consuming_reader_loop(prog, body, ir, cs):
     names = sorted(set((body.blocks[b]["term"].get("callee") or "").rsplit("::", 2)[-2] + "::" +
                        (body.blocks[b]["term"].get("callee") or "").rsplit("::", 1)[-1] for b in cons))
     return "consumes its finite input: every cycle passes %s, whose failure arm leaves the loop" % ", ".join(names)
+
+
+# ------------------------------------------------------------------------------------------------------------
+# reuse discipline: an object that is refilled must not keep anything from its previous contents
+def reset_complete(prog, rep, rule, fn_id, adt_path):
+    """`fn_id` (a clear/reset method taking &mut self) clears or overwrites every field of `adt_path`"""
+    from ..ir import IR
+    from ..effects import effects
+    b = prog.one(fn_id)
+    ir = IR(b)
+    a = prog.adt(adt_path)
+    fields = [f["n"] for f in a["variants"][0]["fields"]]
+    touched = set()
+    for e in effects(b, ir, write_roots=[("a", 0)]):
+        if e.kind in ("write", "mutcall"):
+            for f in fields:
+                if ("." + f) in e.desc:
+                    touched.add(f)
+    missing = [f for f in fields if f not in touched]
+    rep.ob(rule, "%s resets every field" % fn_id.split("::", 1)[1], not missing,
+           "fields %s are all cleared" % fields if not missing else
+           "field(s) %s of %s survive %s: a reused object keeps part of its previous contents" % (missing, adt_path.split("::")[-1], fn_id.split("::")[-1]), b.loc())
+
+
+def cleared_before_fill(prog, rep, rule, prefix, clear_fns, floor):
+    """every function under `prefix` that calls one of clear_fns on *self does so before any other write to *self"""
+    from ..ir import IR, show, strip_sites
+    from ..effects import effects
+    n = 0
+    for b in sorted(prog.bodies.values(), key=lambda x: x.id):
+        if b.is_test or not b.id.startswith(prefix) or b.id in clear_fns:
+            continue
+        cl = []
+        ir = None
+        for bi, t in b.calls():
+            if (t.get("callee") or "") in clear_fns:
+                ir = ir or IR(b)
+                recv = show(strip_sites(ir.term_operand(bi, t["args"][0])))
+                if recv in ("&mut *self", "&mut self", "self"):
+                    cl.append(bi)
+        if not cl:
+            continue
+        n += 1
+        early = []
+        for e in effects(b, ir, write_roots=[("a", 0)]):
+            if e.kind in ("write", "mutcall") and e.bb not in cl and not any(b.dominates(c, e.bb) for c in cl):
+                early.append(e.desc)
+        rep.ob(rule, "%s clears first" % b.id.split("::", 1)[1], not early,
+               "self.clear() precedes every other write to *self" if not early else
+               "`%s` is written before (or without) the object being cleared" % early[0], b.loc())
+    rep.floor(rule, n, floor, "functions under %s that refill *self after clear()" % prefix)
